@@ -246,6 +246,16 @@ def gen(rng, n):
         cfg = gen_cfg(rng, well)
         reqs = [gen_req(rng, cfg) for _ in range(rng.randint(1, 12 if k % 5 else 50))]
         cases.append({"cfg": cfg, "reqs": reqs})
+    for k in range(max(3, n // 80)):
+        # targeted: a large battery at (or a hair below) its ceiling, offered small surpluses in steps of seconds: the change of the
+        # state of charge per step is far below 1e-6, yet nothing may be stored above the ceiling and the remainder must be reported
+        smax = rng.choice([Fraction(9, 10), Fraction(1)])
+        eM = rng.choice([Fraction(100), Fraction(50)])
+        cfg = {"pMax": "1", "qMax": "1", "eMax": str(eM), "socMin": "1/10", "socMax": str(smax), "eta": str(rng.choice([Fraction(1), Fraction(19, 20)])),
+               "soc0": str(smax - rng.choice([Fraction(0), Fraction(1, 10 ** 8)])), "mode": "none", "maxLoad": "0", "remSurv": "0"}
+        reqs = [{"p": str(-rng.choice([Fraction(1, 5), Fraction(1, 10), Fraction(1, 2)])), "q": "0", "h": str(rng.choice([Fraction(1, 3600), Fraction(1, 1800)])),
+                 "tf": False, "first": False, "u": "0"} for _ in range(rng.randint(6, 12))]
+        cases.append({"cfg": cfg, "reqs": reqs})
     from . import net
     for k in range(max(4, n // 60)):
         # the battery inside a running system: its bus's transformer fails by itself and comes back several times
